@@ -15,6 +15,7 @@
 #include <covfie/core/field.hpp>
 #include <covfie/core/field_view.hpp>
 
+#include "aliases.hpp"
 #include "probes.hpp"
 #include "vh.hpp"
 
@@ -44,7 +45,7 @@ static bool near_half_or_wide(R x)
 // ---------------------------------------------------------------- identity-backed
 template <typename I, typename R, std::size_t N>
 struct Ident {
-    using backend_t = cb::nearest_neighbour<cb::identity<cv::vector_d<I, N>>, cv::vector_d<R, N>>;
+    using backend_t = cb::nearest_neighbour<cb::identity<al::alias_t<I, N>>, al::alias_t<R, N>>;
     using field_t = covfie::field<backend_t>;
     std::string name;
     field_t f;
@@ -149,7 +150,7 @@ struct Ident {
 // ---------------------------------------------------------------- array-backed
 template <typename R, std::size_t N>
 struct Arr {
-    using backend_t = cb::nearest_neighbour<cb::strided<cv::vector_d<std::size_t, N>, cb::array<cv::float1>>, cv::vector_d<R, N>>;
+    using backend_t = cb::nearest_neighbour<cb::strided<al::alias_t<std::size_t, N>, cb::array<cv::float1>>, al::alias_t<R, N>>;
     using field_t = covfie::field<backend_t>;
     using strided_t = typename backend_t::backend_t;
 
@@ -233,7 +234,7 @@ template <typename R, typename VAL, std::size_t N>
 static void which_cell(vh::Rng & rng, unsigned nfields, unsigned ncoords)
 {
     using order_t = cb::strided<cv::vector_d<std::size_t, N>, probe::flat<cv::vector_d<VAL, 1>>>;
-    using backend_t = cb::nearest_neighbour<order_t, cv::vector_d<R, N>>;
+    using backend_t = cb::nearest_neighbour<order_t, al::alias_t<R, N>>;
     using field_t = covfie::field<backend_t>;
     std::string name = std::string("nn<strided<probe<") + vh::tn<VAL>() + ">>>,N=" + std::to_string(N) + "," + vh::tn<R>() + ":cell-read";
     if (!vh::selected(name)) return;
@@ -304,6 +305,7 @@ int main(int argc, char ** argv)
     vh::init(argc, argv);
     bool th = vh::st().thorough;
     vh::Rng rng(vh::st().seed * 32452843 + 4);
+    al::alias_table_check();
 #if defined(SH_FLOAT)
     Ident<std::size_t, float, 1>().run(rng, th);
     Ident<std::size_t, float, 2>().run(rng, th);
